@@ -280,17 +280,28 @@ def step_configs(tier, seed):
 
 
 def run_step(seed=0, tier="quick"):
+    res = {"ok": True, "cases": 0, "samples": [], "worst_rel_err": 0.0, "kernel_calls": 0, "aliasing_calls": 0,
+           "name": "3D Navier-Stokes step vs Model/Prog3D (split at the Poisson solve)", "configs": 0, "configs_float32": 0}
+    cfgs = list(enumerate(step_configs(tier, seed)))
+    _run_step_prec(seed, tier, np.float64, cfgs, res)
+    if res["ok"]:
+        # single precision: a subset (the programs are the same; what differs is every cast the glue makes)
+        sub = cfgs[:2] if tier == "quick" else cfgs[::9]
+        n0 = res["configs"]
+        _run_step_prec(seed, tier, np.float32, sub, res)
+        res["configs_float32"] = res["configs"] - n0
+    return res
+
+
+def _run_step_prec(seed, tier, real_t, cfgs, res):
     import warnings
 
     import shim
     import sopht.simulator as sps
 
-    res = {"ok": True, "cases": 0, "samples": [], "worst_rel_err": 0.0, "kernel_calls": 0, "aliasing_calls": 0,
-           "name": "3D Navier-Stokes step vs Model/Prog3D (split at the Poisson solve)", "configs": 0}
-    real_t = np.float64
     requests, expect, traces, labels = [], [], [], []
-    for ci, (forcing, fs, (filt, conv, order), solver, w) in enumerate(step_configs(tier, seed)):
-        r = impl.rng(seed, "step3d", ci)
+    for ci, (forcing, fs, (filt, conv, order), solver, w) in cfgs:
+        r = impl.rng(seed, "step3d", ci, real_t.__name__)
         lo = max(2 * w + 1, 5)
         S = tuple(int(v) for v in r.integers(lo, lo + 3, size=3))
         if len(set(S)) < 3:
@@ -343,7 +354,7 @@ def run_step(seed=0, tier="quick"):
         finally:
             shim.TRACERS.remove(tr)
         s5 = _snap(flat)
-        label = f"ns3d[forcing={forcing},free_stream={fs},filter={(filt, 'conv' if conv else 'mult', order)},{solver},w={w},{S}]"
+        label = f"ns3d[{real_t.__name__},forcing={forcing},free_stream={fs},filter={(filt, 'conv' if conv else 'mult', order)},{solver},w={w},{S}]"
         if sim.time != t0 + dt:
             res.update(ok=False, detail=f"{label}: simulator time {sim.time!r} != {t0!r} + {dt!r}",
                        failing_input={"oracle": "clock", "config": label, "t0": t0, "dt": dt, "time": sim.time})
